@@ -132,11 +132,13 @@ def executable_lines(path):
 
     def walk(code, prefix):
         name = prefix if code.co_name == "<module>" else (f"{prefix}.{code.co_name}" if prefix else code.co_name)
-        lines = {ln for _, _, ln in code.co_lines() if ln is not None and ln > 0}
+        is_function = bool(code.co_flags & 0x1)      # CO_OPTIMIZED: module and class bodies run at import time, before the workload
+        lines = {ln for _, _, ln in code.co_lines() if ln is not None and ln > 0} if is_function else set()
         # the 'def' line itself executes at definition time (in the enclosing body), not when the function runs
         if code.co_name != "<module>":
             lines.discard(code.co_firstlineno)
-        out.setdefault(name or "<module>", set()).update(lines)
+        if is_function:
+            out.setdefault(name, set()).update(lines)
         for c in code.co_consts:
             if hasattr(c, "co_lines"):
                 walk(c, "" if code.co_name == "<module>" else name)
